@@ -84,6 +84,18 @@ CHECKS["C08"] = dict(
     technique="Lean 4 proof (matcher soundness, re-aggregation algebra over all partitions) + structural/behavioural correspondence + routed-vs-unrouted oracle on DuckDB",
 )
 
+CHECKS["C17"] = dict(
+    category="proof",
+    text="Lean 4 theorems (Properties/C17.lean) on the model of the outer window query (Layer/Window.lean): SQL's positional frames coincide with the declarative period sets on strictly ordered partitions "
+         "(ORDER BY of distinct times is strictly increasing; ROWS UNBOUNDED PRECEDING..CURRENT ROW = all periods <= t; RANGE = closed interval; LAG k = THE row of period t-k on a gap-free series and NULL iff the series does not reach back), "
+         "every cumulative and LAG window is partitioned by every other requested dimension (F15 repaired) and depends on its partition's rows only, the three calculations are the declared formulas, "
+         "and the offset table REGENERATED from _calculate_lag_offset is calendar-exact on the month/quarter/year and day/week cells (decide over the table), with a proved counterexample for the fixed-row-count cells (F34). "
+         "Tie: window clauses + final expressions of compile() vs cumWindow/lagWindow/calcExpr (structural), outer rows vs WinExpr.evalRow over the real inner rows (behavioural). Search: calendar-arithmetic reference from the raw rows.",
+    design_ref="DESIGN.md §4 C17",
+    note="Conversion metrics and raw window_expression passthrough are not modelled; the inner aggregate is C01's subject. Two genuine defects fixed (F15, F19), one recorded (F34).",
+    technique="Lean 4 proof (positional = declarative window semantics, partition locality, decide over the regenerated offset table) + structural/behavioural correspondence + calendar reference oracle",
+)
+
 CHECKS["C16"] = dict(
     category="proof",
     text="Lean 4 theorem C16_string_one_literal: for EVERY value and every continuation, the formatted string/date value lexes as exactly one string literal whose content is the value (round-trip), "
